@@ -417,6 +417,7 @@ type c02World struct {
 	overDemand                                    int             // settle rounds in which addresses were requested although enough were idle
 	inSettle                                      bool
 	writeLost                                     bool              // a record write failed and no later pass has persisted a full sync yet
+	drifted                                       map[string]string // addresses removed in the cloud out of band (addr -> interface) since the last persisted full sync
 	failedWrites                                  int               // 1 if the latest pass whose record write failed had changed the cloud (the controller then must resync)
 	settleTail                                    [][]cloudctl.Call // calls of the last settle rounds
 	nilMapHit                                     map[string]bool   // "<eni>/<4|6>": a full sync was told addresses of a family the record held no map for
@@ -442,7 +443,7 @@ func c02Hygiene() {
 func c02NewWorld(c *vt.Ctx, s c02Scenario) *c02World {
 	c02Hygiene()
 	w := &c02World{c: c, s: s, ctx: context.Background(), live: map[int]*c02LivePod{}, everPod: map[string]bool{},
-		k: map[string]*c08KENI{}, seenFault: map[string]bool{}, toldCreated: map[string]bool{}, deleteFailed: map[string]bool{}, everRecorded: map[string]bool{}, writeFailAtCreate: map[string]bool{}, tainted: map[string]bool{}, nilMapHit: map[string]bool{}, clock: time.Now().Add(-24 * time.Hour).Truncate(time.Second)}
+		k: map[string]*c08KENI{}, seenFault: map[string]bool{}, toldCreated: map[string]bool{}, deleteFailed: map[string]bool{}, everRecorded: map[string]bool{}, writeFailAtCreate: map[string]bool{}, tainted: map[string]bool{}, drifted: map[string]string{}, nilMapHit: map[string]bool{}, clock: time.Now().Add(-24 * time.Hour).Truncate(time.Second)}
 	n := s.Node
 
 	// ---- cloud
